@@ -501,3 +501,52 @@ func TestVerifC04(t *testing.T) {
 		rec.Case(c.desc, (c.replicas >= 2 && c.diffCuts) || c.overlapped, cls...)
 	})
 }
+
+// TestVerifC04_LargeSeries covers "however the data is cut into ... frames": a series whose chunks
+// exceed the 1 MiB frame limit of TSDBStore is streamed in several frames by each store. Values are
+// incompressible (hash of the index) so that ~1200 chunks of 120 samples exceed the limit.
+func TestVerifC04_LargeSeries(t *testing.T) {
+	rec := kit.For(t, "C04")
+	n := kit.Scale("c04large", 1, 5)
+	gen := rapid.Custom(func(rt *rapid.T) [4]int {
+		return [4]int{rapid.IntRange(140000, 200000).Draw(rt, "samples"), rapid.SampledFrom([]int{1, 2, 2, 3}).Draw(rt, "replicas"),
+			rapid.SampledFrom([]int{0, 1, 64}).Draw(rt, "batch"), rapid.IntRange(0, 1).Draw(rt, "lazy")}
+	})
+	for i := 0; i < n; i++ {
+		p := gen.Example(int(kit.Seed())*31 + i)
+		ss := make([]smpl, p[0])
+		x := uint64(kit.Seed())*0x9e3779b97f4a7c15 + uint64(i)
+		for j := range ss {
+			x ^= x << 13
+			x ^= x >> 7
+			x ^= x << 17
+			ss[j] = smpl{int64(1000 + j*15000), float64(x>>11) / 3.0}
+		}
+		short := []smpl{{1000, 1}, {16000, 2}}
+		c := c04Case{replicaLabel: "replica", replicas: p[1], mint: 0, maxt: int64(p[0]+10) * 15000,
+			logicals: []logical{{lset: labels.FromStrings("__name__", "m", "job", "long"), ss: ss}, {lset: labels.FromStrings("__name__", "m", "job", "short"), ss: short}}}
+		for r := 0; r < c.replicas; r++ {
+			ps := placedStore{ext: labels.FromStrings("region", "eu", "replica", fmt.Sprint(r))}
+			var chks []chunks.Meta
+			cut := 120 - r // replicas cut differently
+			for off := 0; off < len(ss); off += cut {
+				end := off + cut
+				if end > len(ss) {
+					end = len(ss)
+				}
+				chks = append(chks, xorMeta(ss[off:end]))
+			}
+			ps.series = append(ps.series, memSeries{lset: c.logicals[0].lset, chks: chks}, memSeries{lset: c.logicals[1].lset, chks: []chunks.Meta{xorMeta(short)}})
+			c.stores = append(c.stores, ps)
+		}
+		strategy := store.EagerRetrieval
+		if p[3] == 1 {
+			strategy = store.LazyRetrieval
+		}
+		c.desc = fmt.Sprintf("large series: %d samples, %d replicas (chunks of 120-r samples), batch=%d strategy=%s", p[0], p[1], p[2], strategy)
+		if msg := checkC04(c, p[2], strategy, false); msg != "" {
+			rec.Violation(t, "%s | case: %s", msg, c.desc)
+		}
+		rec.Case(c.desc, true, "series-larger-than-one-frame")
+	}
+}
